@@ -11,10 +11,10 @@ import traceback
 from harness import scenarios
 
 CLASSES_FOR = {
-    'C01': ['IntersperseDataset', 'NumpySerializedList', 'ListDataset', 'DictDataset', 'MapDataset', 'SliceDataset', 'ConcatenateDataset', 'ZipDataset',
+    'C01': ['IntersperseDataset', 'NumpySerializedList', 'CacheDataset', 'ListDataset', 'DictDataset', 'MapDataset', 'SliceDataset', 'ConcatenateDataset', 'ZipDataset',
             'KeyZipDataset', 'ItemsDataset', 'BatchDataset', 'UnbatchDataset', 'FilterDataset',
             'CatchExceptionDataset'],
-    'C02': ['IntersperseDataset', 'NumpySerializedList', 'ListDataset', 'DictDataset', 'MapDataset', 'SliceDataset', 'ConcatenateDataset', 'ZipDataset',
+    'C02': ['IntersperseDataset', 'NumpySerializedList', 'CacheDataset', 'ListDataset', 'DictDataset', 'MapDataset', 'SliceDataset', 'ConcatenateDataset', 'ZipDataset',
             'KeyZipDataset', 'ItemsDataset', 'BatchDataset'],
     'C03': ['IntersperseDataset', 'DictDataset', 'MapDataset', 'SliceDataset', 'ConcatenateDataset', 'KeyZipDataset', 'ItemsDataset',
             'FilterDataset', 'CatchExceptionDataset'],
